@@ -376,9 +376,13 @@ def run(ck, tier):
             if md.get('cmd') == 'differs':
                 cmd_differs.append((c['id'], mode))
             if mode.startswith('color') and not raw_anomaly:
+                # the shipped pattern is written to cope with colour escape sequences itself: the RAW coloured
+                # header line must parse back to the same five fields as the colour-free line
                 for x in md['ls']:
-                    if x.get('r') is not None and x['m']['ok'] and x['r']['file'] != x['m']['file']:
-                        raw_anomaly.append({'mode': mode, 'line': x['p'], 'raw_parse': x['r'], 'parse_after_stripping': x['m']})
+                    if x.get('g') == 'none' and x.get('r') is not None and x['m']['ok'] and \
+                            (not x['r'].get('ok') or any(x['r'].get(k) != x['m'].get(k) for k in ('file', 'line', 'col', 'kind'))):   # (msg may itself contain user-written escape sequences)
+                        raw_anomaly.append({'mode': mode, 'line': x['p'], 'raw_parse': x['r'], 'parse_after_stripping': x['m'],
+                                            'site': c['site'], 'src': c.get('src', '')})
                         break
     dead = [s['id'] for s in sites if s['id'] not in live]
     ck.cov['echo_sites'] = len(sites)
@@ -397,9 +401,9 @@ def run(ck, tier):
                 % (len(skipped), skipped[0][0] + '/' + skipped[0][1], skipped[0][2][:200]))
         ck.cov['runs_skipped_lint_failure'] = len(skipped)
     if raw_anomaly:
-        ck.note('on RAW coloured output (no stripping) the shipped pattern does not give back the file name of a '
-                'header that follows a line ending in a reset sequence: %s' % json.dumps(raw_anomaly[0])[:600])
-        ck.cov['raw_colour_anomaly'] = raw_anomaly[0]
+        ck.violation('matcher:raw-coloured-header',
+                     'with -color the shipped problem matcher does not parse a header line back to the fields of the '
+                     'diagnostic: %s' % json.dumps(raw_anomaly[0])[:700], {'kind': 'raw-colour', 'case': raw_anomaly[0]})
 
     # ---- validation by TLC
     bad, drift = validate(ck, recs, '%d snippet triples, %d echo runs x 6 modes' %
